@@ -221,8 +221,9 @@ class _Rep:
 
 
 from .c14_nx import ToNetworkx
-from .c07_timings import ToTimings
-UNITS = [ApplyWindowBody(), WindowIndex(), ToNetworkx(), ToTimings()] + [u for u in compiled.UNITS if "C07" in u.props]
+from .c07_timings import ToTimings, WindowedToGraph
+from .c07_connected import ToConnected
+UNITS = [ApplyWindowBody(), WindowIndex(), WindowedToGraph(), ToNetworkx(), ToTimings(), ToConnected()] + [u for u in compiled.UNITS if "C07" in u.props]
 
 
 def check(tier, seed):
@@ -231,12 +232,13 @@ def check(tier, seed):
     res = bounded.run_native("c07_schedule.py", ["--n", str(n), "--seed", str(seed)])
     lines, ev, err = bounded.report("C07", "compiled schedule vs executable contract", res, "c07_schedule.py")
     extra = dict(level="other", explanation="Hybrid: the rex-side scan body of apply_window, Window.push and to_networkx_graph (loop invariants over arrays of any length: exactly the executed vertices, the chaining of consecutive steps and the real "
-                 "messages become vertices / edges) are proved (obligations / discharged below); to_timings is proved on an enumerated layout (2 episodes, 3 slots, a partition beyond the common horizon, an unused slot) with symbolic array contents; the supergraph library's monomorphism, to_connected_graph and the window selection are validated on instances by the bounded stand-in, which is NOT a proof.",
+                 "messages become vertices / edges) are proved (obligations / discharged below); to_timings is proved on an enumerated layout (2 episodes, 3 slots, a partition beyond the common horizon, an unused slot) with symbolic array contents; to_connected_graph is proved on enumerated small graphs with symbolic times (every order of the times is a path); the supergraph library's monomorphism and the window selection are validated on instances by the bounded stand-in, which is NOT a proof.",
                  bounded=[dict(ev, bound=f"{n} random 3-node systems (rates 1..20 Hz, windows 1..4, trainable / jittery delays, MCS / generational / topological x prune, 1-2 episodes): on the objects built by the real "
                                           "pipeline - every needed vertex mapped exactly once, kind-preserving, supervisor step p in partition p; slot carries the vertex's own seq / times / windows; run mask true exactly "
                                           "where mapped; per-kind sequence order; every window producer strictly before its consumer; windows = last `window` (+extension) consumed messages, oldest first")],
                  assumptions=["the supergraph library's result (grow_supergraph / evaluate_supergraph) is NOT under contract: it is validated on the instances above only (bounded)",
-                              "to_connected_graph / the window selection of apply_window are covered by the bounded stand-in; apply_window's scan body, Window.push, to_networkx_graph and to_timings (enumerated layout, symbolic contents) are proved",
+                              "the window selection of apply_window is covered by the bounded stand-in; apply_window's scan body, Window.push, to_networkx_graph, to_timings (enumerated layout, symbolic contents) and to_connected_graph (enumerated graphs, symbolic times) are proved",
+                              "to_connected_graph: the graph is a real networkx.DiGraph with z3 terms as node attributes - copy / ancestors / add_edge are networkx's own; sorted(key=symbolic) forks one path per consistent order",
                               "to_timings: numpy gather / scatter is executed by numpy itself on object arrays whose entries are z3 terms (index arrays are concrete in a configuration); branching on array contents is allowed only on the supervisor's sequence numbers, which are concrete",
                               "networkx.DiGraph is modelled by its abstract state (vertex set with attributes, edge set with attributes; add_edge creates missing endpoints); vertex names f'{kind}_{seq}' are kept as the pair (kind, seq)"])
     code = check_property("C07", UNITS, tier, seed, extra=extra)
